@@ -118,6 +118,8 @@ EXPORT errno_t _ctime_s_chk(char *dest, rsize_t dmax, const time_t *timer,
 
     CHK_DEST_NULL("ctime_s")
     if (unlikely(dmax < 26)) {
+        if (dmax && dmax <= destbos)
+            dest[0] = '\0'; /* K.3.8.2: s[0] is set to the null character */
         invoke_safe_str_constraint_handler("ctime_s: dmax is too small", dest,
                                            ESLEMIN);
         return ESLEMIN;
@@ -135,17 +137,20 @@ EXPORT errno_t _ctime_s_chk(char *dest, rsize_t dmax, const time_t *timer,
     }
 
     if (unlikely(timer == NULL)) {
+        dest[0] = '\0';
         invoke_safe_str_constraint_handler("ctime_s: timer is null", NULL,
                                            ESNULLP);
         return ESNULLP;
     }
     if (unlikely(*timer < 0)) {
+        dest[0] = '\0';
         invoke_safe_str_constraint_handler("ctime_s: timer is <0", NULL,
                                            ESLEMIN);
         return ESLEMIN;
     }
     /* 32bit have a lower limit: -Werror=type-limits (long) */
     if (unlikely(*timer >= MAX_TIME_T_STR)) { /* year 10000 */
+        dest[0] = '\0';
         invoke_safe_str_constraint_handler("ctime_s: timer is too large", NULL,
                                            ESLEMAX);
         return ESLEMAX;
@@ -165,8 +170,10 @@ EXPORT errno_t _ctime_s_chk(char *dest, rsize_t dmax, const time_t *timer,
     } else {
         char tmp[120];
         buf = ctime_r(timer, (char *)&tmp);
-        if (!buf)
+        if (!buf) {
+            dest[0] = '\0';
             return -1;
+        }
         len = strlen(buf);
         if (likely(len < dmax)) {
             strcpy_s(dest, dmax, buf);
@@ -189,6 +196,7 @@ EXPORT errno_t _ctime_s_chk(char *dest, rsize_t dmax, const time_t *timer,
         strcpy_s(dest, dmax, buf);
     } else {
     esnospc:
+        dest[0] = '\0';
         invoke_safe_str_constraint_handler("ctime_s: dmax is too small", dest,
                                            ESNOSPC);
         return ESNOSPC;
